@@ -149,15 +149,15 @@ theorem panic_not_lock_zeroize (c : Cfg) (s : State) (t : Tok) (hp : (step c s t
 
 /-- **`panic_preserves_all`** (page part): any state satisfying `Inv` and `Tight`, any token whose outcome is
 `panic`: the slots, every page's permission and lock flag, and the number of locked pages are as before -/
-theorem panic_kernel {c : Cfg} (hP : 0 < c.P) {s : State} (h : Inv c s) (ht : Tight c s) (t : Tok)
-    (hp : (step c s t).1 = .panic) :
+theorem panic_kernel {c : Cfg} (hP : 0 < c.P) {s : State} (h : Inv c s) (ht : Tight c s)
+    (hl : Leakless c s.m) (t : Tok) (hp : (step c s t).1 = .panic) :
     (step c s t).2.slots = s.slots ∧
     (∀ p, (step c s t).2.m.k.perm p = s.m.k.perm p ∧ (step c s t).2.m.k.locked p = s.m.k.locked p) ∧
     lockedPages (step c s t).2.m.k = lockedPages s.m.k := by
   have hslots : (step c s t).2.slots = s.slots := panic_shape c (resetRel s) t hp
   have hn := panic_not_lock_zeroize c s t hp
   have hinv := inv_step hP h t (fun hh => hn.2 hh.1)
-  have htight := tight_step hP h ht t (Or.inr (fun hl => hn.1 hl.1))
+  have htight := tight_step hP h ht t (hl.imp id (fun hf => ⟨fun hl => hn.1 hl.1, hf⟩))
   exact ⟨hslots, same_slots_same_kernel h ht hinv htight hslots⟩
 
 /-- the tokens that can answer `panic`: the non-`Result` operations that re-lock with `expect` -/
